@@ -127,6 +127,7 @@ fn run_e1(rep: &Report) -> i32 {
                 layer2_cap: if t { 8 } else { 7 },
                 span_len: if t { 5 } else { 4 },
                 counters: false,
+                long_templates: true,
             },
             "per model (pattern list x leftmost kind): closed product of (real automaton state via next_state over all 256 bytes) x (documented search recipe state) x (SPEC reference state = active partial occurrences + normalised verdict) for each of 15 low-level representations x prefilter on/off; recorded match compared with SPEC leftmost on every transition; then every BFS witness and every haystack over sigma(P)+bottom up to the layer-2 length x every span is run through try_find/find_iter of 48 real searchers and compared with SPEC",
             "2, 7 (C01)",
@@ -145,6 +146,7 @@ fn run_e1(rep: &Report) -> i32 {
                 layer2_cap: if t { 8 } else { 7 },
                 span_len: if t { 5 } else { 4 },
                 counters: false,
+                long_templates: true,
             },
             "per model (pattern list, standard kind): closed product as for C01 with the standard recipe (return at first match state); result compared with SPEC earliest-end/longest/first-supplied on every transition; witnesses and layer 2 x spans through try_find/find_iter of 48 real searchers vs SPEC",
             "2, 7 (C02)",
@@ -163,6 +165,7 @@ fn run_e1(rep: &Report) -> i32 {
                 layer2_cap: if t { 8 } else { 7 },
                 span_len: if t { 5 } else { 4 },
                 counters: false,
+                long_templates: true,
             },
             "per model: every reachable (state, byte) of each representation; the full match list of every state must equal the patterns that are a suffix of the input, longest first then supply order, each once (so overlapping search reports every occurrence exactly once in end order for haystacks of every length); then stepwise try_find_overlapping on one OverlappingState until None plus 3 further calls (must stay None) and find_overlapping_iter on witnesses and layer 2 x spans vs SPEC's ordered occurrence list",
             "2, 7 (C03)",
@@ -185,6 +188,7 @@ fn run_e1(rep: &Report) -> i32 {
                 layer2_cap: 7,
                 span_len: if t { 4 } else { 3 },
                 counters: false,
+                long_templates: true,
             },
             "per model: lock-step product of all 15 low-level representations (nNFA dense depth 0/1/3, cNFA dense depth 0/1/2 x byte classes, DFA start kind U/A/B x byte classes) advanced through next_state on all 256 bytes until the joint reachable set is closed, unanchored and anchored; in every joint state the search-observable behaviour must agree (standard: whole match list; leftmost: the match the documented loop has recorded); no SPEC involved. Then all six search APIs on all 24 searchers (incl. top-level automatic/explicit kinds) must return identical results on witnesses and layer 2 x spans x anchoring",
             "2, 7 (C04)",
@@ -207,6 +211,7 @@ fn run_e1(rep: &Report) -> i32 {
                 layer2_cap: if t { 8 } else { 7 },
                 span_len: if t { 5 } else { 4 },
                 counters: false,
+                long_templates: true,
             },
             "per model and match kind: closed product from the anchored start state of each representation that supports anchoring (both NFAs, DFA Anchored/Both) with SPEC restricted to occurrences starting at the span start; match lists filtered to full-length matches must be exactly the anchored occurrences, dead is never entered while a pattern can still match; then anchored try_find / find_iter / stepwise overlapping on witnesses and layer 2 x every span start vs SPEC anchored",
             "2, 7 (C09)",
@@ -230,6 +235,7 @@ fn run_e1(rep: &Report) -> i32 {
                 layer2_cap: 6,
                 span_len: 3,
                 counters: false,
+                long_templates: true,
             },
             "pattern lists over a case/boundary alphabet (a, A, @, `, [, {, 0xC1, 0xE1) built with ascii_case_insensitive: closed product over all 256 bytes with SPEC that folds exactly A-Z to a-z; pattern identifiers must be those of the patterns as supplied; then APIs on witnesses and layer 2 over sigma(P) + opposite cases + bottom vs SPEC, prefilter on and off",
             "2, 7 (C11)",
@@ -251,6 +257,7 @@ fn run_e1(rep: &Report) -> i32 {
                 layer2_cap: if t { 8 } else { 7 },
                 span_len: if t { 5 } else { 4 },
                 counters: false,
+                long_templates: true,
             },
             "per model: closed product with the earliest recipe (return at the first admissible match state): the result must be a genuine occurrence ending no later than SPEC's normal answer, and exist iff SPEC's exists; then is_match, earliest try_find and normal try_find of 48 real searchers on witnesses and layer 2 x spans x anchoring: is_match == (SPEC occurrence set non-empty) == find.is_some(), earliest is an occurrence with end <= normal end",
             "2, 7 (C14)",
@@ -273,6 +280,7 @@ fn run_e1(rep: &Report) -> i32 {
                 layer2_cap: if t { 8 } else { 7 },
                 span_len: if t { 5 } else { 4 },
                 counters: false,
+                long_templates: true,
             },
             "per low-level automaton (30 per model): every state reachable from either start state through next_state with any of 256 bytes and either anchoring argument: no panic, dead absorbing under both arguments, dead/match => special, special => dead|match|start, match states list >= 1 pattern id < patterns_len, start_state fails exactly for unsupported anchoring; then the documented caller-written loop (harness code over the public trait) vs the built-in try_find on layer 2 x spans x anchoring x earliest",
             "2, 7 (C16)",
@@ -295,6 +303,7 @@ fn run_e1(rep: &Report) -> i32 {
                 layer2_cap: 7,
                 span_len: if t { 4 } else { 3 },
                 counters: true,
+                long_templates: true,
             },
             "per NFA representation: explicit weighted state graph over all (state, byte) pairs, weight = failure transitions followed by that single next_state call (hook counter) minus one; Bellman-Ford longest path from the start state must converge with maximum <= 0, i.e. for every haystack of every length, at every prefix, failure traversals <= transitions; DFA: zero failure traversals. Then hook counters on every built-in search call over witnesses/layer 2: positions strictly increasing inside the span (so <= 1 transition per byte), failure traversals never ahead of transitions",
             "2, 7 (C19), 8 (H2)",
@@ -304,14 +313,54 @@ fn run_e1(rep: &Report) -> i32 {
     };
     let mut o = o;
     if o.counters {
-        // counters mode replays through the APIs itself
-        o.api_mode = ApiMode::Spec;
-        o.apis = o.apis.clone();
-    }
-    if rep.property == "C19" {
-        o.api_mode = ApiMode::Spec; // results are also compared (cheap), counters checked after
+        o.api_mode = ApiMode::Counters;
     }
     e1run::run(rep, &models, &o);
+    // deep structured universes, table level only, reduced representation set
+    {
+        use crate::aut::{Cfg, Rep, Sk};
+        use e1run::Deep;
+        let reps = [
+            Cfg { rep: Rep::N { dd: 1 }, pre: false },
+            Cfg { rep: Rep::C { dd: 1, bc: true }, pre: false },
+            Cfg { rep: Rep::D { sk: Sk::B, bc: true }, pre: false },
+        ];
+        let (kinds, explores): (Vec<Kind>, Vec<Explore>) = match rep.property.as_str() {
+            "C01" => (vec![Kind::LF, Kind::LL], vec![Explore::Find { anchored: false, earliest: false }]),
+            "C02" => (vec![Kind::Std], vec![Explore::Find { anchored: false, earliest: false }]),
+            "C03" => (vec![Kind::Std], vec![Explore::Walk { anchored: false }]),
+            "C04" => (all.to_vec(), vec![Explore::Joint { anchored: false }, Explore::Joint { anchored: true }]),
+            "C09" => (all.to_vec(), vec![Explore::Find { anchored: true, earliest: false }, Explore::Walk { anchored: true }]),
+            "C11" => (all.to_vec(), vec![Explore::Find { anchored: false, earliest: false }, Explore::Walk { anchored: false }, Explore::Find { anchored: true, earliest: false }]),
+            "C14" => (all.to_vec(), vec![Explore::Find { anchored: false, earliest: true }, Explore::Find { anchored: true, earliest: true }]),
+            "C16" => (all.to_vec(), vec![Explore::Contract]),
+            "C19" => (vec![Kind::Std, Kind::LF], vec![Explore::Work]),
+            _ => (vec![], vec![]),
+        };
+        let ci = rep.property == "C11";
+        let deeps: Vec<Deep> = if ci {
+            vec![
+                Deep { name: "D3ci-aAb", alpha: b"aAb@", minlen: 0, maxlen: 2, k: 3, ci: true },
+                Deep { name: "D2ci-len3", alpha: b"aAb", minlen: 0, maxlen: 3, k: 2, ci: true },
+            ]
+        } else if t {
+            vec![
+                Deep { name: "D4-ab-len4", alpha: b"ab", minlen: 0, maxlen: 4, k: 4, ci: false },
+                Deep { name: "D3-ab-len5", alpha: b"ab", minlen: 1, maxlen: 5, k: 3, ci: false },
+                Deep { name: "D3-abc-len3", alpha: b"abc", minlen: 0, maxlen: 3, k: 3, ci: false },
+                Deep { name: "D4-abc-len2", alpha: b"abc", minlen: 1, maxlen: 2, k: 4, ci: false },
+            ]
+        } else {
+            vec![
+                Deep { name: "D4-ab-len3", alpha: b"ab", minlen: 0, maxlen: 3, k: 4, ci: false },
+                Deep { name: "D3-ab-len4", alpha: b"ab", minlen: 1, maxlen: 4, k: 3, ci: false },
+                Deep { name: "D3-abc-len2", alpha: b"abc", minlen: 0, maxlen: 2, k: 3, ci: false },
+            ]
+        };
+        if !explores.is_empty() {
+            e1run::run_deep(rep, &deeps, &kinds, &explores, &reps);
+        }
+    }
     let states = rep.get("states");
     let transitions = rep.get("transitions");
     let cov = J::obj()
@@ -319,8 +368,9 @@ fn run_e1(rep: &Report) -> i32 {
         .set("transitions", J::i(transitions.max(1)))
         .set("traces_validated_against_impl", J::i(rep.get("api_cases")))
         .set("evaluations", J::i(rep.get("api_calls").max(1)))
-        .set("distinct_nontrivial", J::i(rep.get("models")))
-        .set("models", J::i(rep.get("models")))
+        .set("distinct_nontrivial", J::i(rep.get("models") + rep.get("deep_models")))
+        .set("models", J::i(rep.get("models") + rep.get("deep_models")))
+        .set("deep_models_table_level_only", J::i(rep.get("deep_models")))
         .set("rule", J::s(rule))
         .set("nontrivial_rule", J::s("a model (pattern list x match kind x folding) counts once; every model builds 15+ real automata and reaches at least one match state"))
         .set("match_states_reached", J::i(rep.get("match_states_reached")))
